@@ -3,7 +3,7 @@
 //! the pass-through shim), presets the counter, and performs one clone through the chosen
 //! entry point. The parent observes how the process ends.
 
-use crate::family::{Family, F0, F7};
+use crate::family::{Family, F0, F2, F4, F5, F7};
 use crate::handle::Probe;
 use crate::shapes::Shape;
 use std::io::Write;
@@ -51,11 +51,26 @@ fn preset(start: usize) {
     unsafe { (*(addr as *const core::sync::atomic::AtomicUsize)).store(start, Ordering::SeqCst) };
 }
 
+/// Payload shapes an entry point can be combined with ("entry@shape"): the guard must sit on the
+/// real counter for every payload size and alignment (the count is at offset 0, the payload at
+/// max(8, align)).
+pub const SHAPES: &[&str] = &["", "@w16", "@w64", "@zst"];
+
 /// Runs in the child. Never returns normally through a clone that should have aborted.
 pub fn child(entry: &str, start: usize) -> i32 {
-    type P = <F0 as Family>::P;
-    type Q = <F0 as Family>::Q;
-    type H = <F0 as Family>::H;
+    match entry.split_once('@') {
+        None => child_f::<F0>(entry, start),
+        Some((e, "w16")) => child_f::<F2>(e, start),
+        Some((e, "w64")) => child_f::<F4>(e, start),
+        Some((e, "zst")) => child_f::<F5>(e, start),
+        _ => {
+            say("HARNESS-ERROR unknown payload shape");
+            2
+        }
+    }
+}
+
+fn child_f<F: Family>(entry: &str, start: usize) -> i32 {
     type E = <F7 as Family>::E; // Copy elements: nothing to destroy when handles are forgotten
     macro_rules! scenario {
         ($make:expr, $count:expr, $clone:expr, $valid:expr) => {{
@@ -88,7 +103,7 @@ pub fn child(entry: &str, start: usize) -> i32 {
         }};
     }
     match entry {
-        "arc_sized" => scenario!(Arc::new(P::fresh()), |h: &Arc<P>| Arc::strong_count(h), |h: &Arc<P>| h.clone(), |h: &Arc<P>, n: &Arc<P>| Arc::ptr_eq(h, n) && n.raw() == h.raw()),
+        "arc_sized" => scenario!(Arc::new(F::P::fresh()), |h: &Arc<F::P>| Arc::strong_count(h), |h: &Arc<F::P>| h.clone(), |h: &Arc<F::P>, n: &Arc<F::P>| Arc::ptr_eq(h, n) && n.raw() == h.raw()),
         "arc_slice" => scenario!(
             Arc::<[E]>::from(vec![E::fresh(), E::fresh()]),
             |h: &Arc<[E]>| Arc::strong_count(h),
@@ -97,7 +112,7 @@ pub fn child(entry: &str, start: usize) -> i32 {
         ),
         "arc_dyn" => scenario!(
             {
-                let a: Arc<P> = Arc::new(P::fresh());
+                let a: Arc<F::P> = Arc::new(F::P::fresh());
                 let p = Arc::into_raw(a) as *const dyn Probe;
                 unsafe { Arc::<dyn Probe>::from_raw(p) }
             },
@@ -106,97 +121,97 @@ pub fn child(entry: &str, start: usize) -> i32 {
             |h: &Arc<dyn Probe>, n: &Arc<dyn Probe>| Arc::ptr_eq(h, n) && n.probe_id() == h.probe_id()
         ),
         "arc_header_slice" => scenario!(
-            Arc::from_header_and_slice(H::fresh(), &[E::fresh(), E::fresh(), E::fresh()]),
-            |h: &Arc<HeaderSlice<H, [E]>>| Arc::count(h),
-            |h: &Arc<HeaderSlice<H, [E]>>| h.clone(),
-            |h: &Arc<HeaderSlice<H, [E]>>, n: &Arc<HeaderSlice<H, [E]>>| Arc::ptr_eq(h, n) && n.slice.len() == 3
+            Arc::from_header_and_slice(F::H::fresh(), &[E::fresh(), E::fresh(), E::fresh()]),
+            |h: &Arc<HeaderSlice<F::H, [E]>>| Arc::count(h),
+            |h: &Arc<HeaderSlice<F::H, [E]>>| h.clone(),
+            |h: &Arc<HeaderSlice<F::H, [E]>>, n: &Arc<HeaderSlice<F::H, [E]>>| Arc::ptr_eq(h, n) && n.slice.len() == 3
         ),
         "arc_str" => scenario!(Arc::<str>::from("overflow"), |h: &Arc<str>| Arc::strong_count(h), |h: &Arc<str>| h.clone(), |h: &Arc<str>, n: &Arc<str>| Arc::ptr_eq(h, n) && &**n == "overflow"),
         "arc_erased" => scenario!(
-            Arc::<HeaderSlice<(), P>>::from(Arc::new(P::fresh())),
-            |h: &Arc<HeaderSlice<(), P>>| Arc::strong_count(h),
-            |h: &Arc<HeaderSlice<(), P>>| h.clone(),
-            |h: &Arc<HeaderSlice<(), P>>, n: &Arc<HeaderSlice<(), P>>| Arc::ptr_eq(h, n)
+            Arc::<HeaderSlice<(), F::P>>::from(Arc::new(F::P::fresh())),
+            |h: &Arc<HeaderSlice<(), F::P>>| Arc::strong_count(h),
+            |h: &Arc<HeaderSlice<(), F::P>>| h.clone(),
+            |h: &Arc<HeaderSlice<(), F::P>>, n: &Arc<HeaderSlice<(), F::P>>| Arc::ptr_eq(h, n)
         ),
         "thin" => scenario!(
-            ThinArc::from_header_and_slice(H::fresh(), &[E::fresh(), E::fresh()]),
-            |h: &ThinArc<H, E>| ThinArc::strong_count(h),
-            |h: &ThinArc<H, E>| h.clone(),
-            |h: &ThinArc<H, E>, n: &ThinArc<H, E>| h.heap_ptr() == n.heap_ptr() && n.slice.len() == 2
+            ThinArc::from_header_and_slice(F::H::fresh(), &[E::fresh(), E::fresh()]),
+            |h: &ThinArc<F::H, E>| ThinArc::strong_count(h),
+            |h: &ThinArc<F::H, E>| h.clone(),
+            |h: &ThinArc<F::H, E>, n: &ThinArc<F::H, E>| h.heap_ptr() == n.heap_ptr() && n.slice.len() == 2
         ),
         "offset_clone" => scenario!(
-            Arc::into_raw_offset(Arc::new(P::fresh())),
-            |h: &OffsetArc<P>| OffsetArc::strong_count(h),
-            |h: &OffsetArc<P>| h.clone(),
-            |h: &OffsetArc<P>, n: &OffsetArc<P>| (&**h as *const P) == (&**n as *const P)
+            Arc::into_raw_offset(Arc::new(F::P::fresh())),
+            |h: &OffsetArc<F::P>| OffsetArc::strong_count(h),
+            |h: &OffsetArc<F::P>| h.clone(),
+            |h: &OffsetArc<F::P>, n: &OffsetArc<F::P>| (&**h as *const F::P) == (&**n as *const F::P)
         ),
         "offset_clone_arc" => scenario!(
-            Arc::into_raw_offset(Arc::new(P::fresh())),
-            |h: &OffsetArc<P>| OffsetArc::strong_count(h),
-            |h: &OffsetArc<P>| h.clone_arc(),
-            |h: &OffsetArc<P>, n: &Arc<P>| (&**h as *const P) == (&**n as *const P)
+            Arc::into_raw_offset(Arc::new(F::P::fresh())),
+            |h: &OffsetArc<F::P>| OffsetArc::strong_count(h),
+            |h: &OffsetArc<F::P>| h.clone_arc(),
+            |h: &OffsetArc<F::P>, n: &Arc<F::P>| (&**h as *const F::P) == (&**n as *const F::P)
         ),
         "borrow_clone_arc" => scenario!(
-            Arc::new(P::fresh()),
-            |h: &Arc<P>| triomphe::ArcBorrow::strong_count(&h.borrow_arc()),
-            |h: &Arc<P>| h.borrow_arc().clone_arc(),
-            |h: &Arc<P>, n: &Arc<P>| Arc::ptr_eq(h, n)
+            Arc::new(F::P::fresh()),
+            |h: &Arc<F::P>| triomphe::ArcBorrow::strong_count(&h.borrow_arc()),
+            |h: &Arc<F::P>| h.borrow_arc().clone_arc(),
+            |h: &Arc<F::P>, n: &Arc<F::P>| Arc::ptr_eq(h, n)
         ),
         "union_first" => scenario!(
-            ArcUnion::<P, Q>::from_first(Arc::new(P::fresh())),
-            |h: &ArcUnion<P, Q>| ArcUnion::strong_count(h),
-            |h: &ArcUnion<P, Q>| h.clone(),
-            |h: &ArcUnion<P, Q>, n: &ArcUnion<P, Q>| ArcUnion::ptr_eq(h, n) && n.is_first()
+            ArcUnion::<F::P, F::Q>::from_first(Arc::new(F::P::fresh())),
+            |h: &ArcUnion<F::P, F::Q>| ArcUnion::strong_count(h),
+            |h: &ArcUnion<F::P, F::Q>| h.clone(),
+            |h: &ArcUnion<F::P, F::Q>, n: &ArcUnion<F::P, F::Q>| ArcUnion::ptr_eq(h, n) && n.is_first()
         ),
         "union_second" => scenario!(
-            ArcUnion::<P, Q>::from_second(Arc::new(Q::fresh())),
-            |h: &ArcUnion<P, Q>| ArcUnion::strong_count(h),
-            |h: &ArcUnion<P, Q>| h.clone(),
-            |h: &ArcUnion<P, Q>, n: &ArcUnion<P, Q>| ArcUnion::ptr_eq(h, n) && n.is_second()
+            ArcUnion::<F::P, F::Q>::from_second(Arc::new(F::Q::fresh())),
+            |h: &ArcUnion<F::P, F::Q>| ArcUnion::strong_count(h),
+            |h: &ArcUnion<F::P, F::Q>| h.clone(),
+            |h: &ArcUnion<F::P, F::Q>, n: &ArcUnion<F::P, F::Q>| ArcUnion::ptr_eq(h, n) && n.is_second()
         ),
         "union_borrow_clone_arc" => scenario!(
-            ArcUnion::<P, Q>::from_second(Arc::new(Q::fresh())),
-            |h: &ArcUnion<P, Q>| ArcUnion::strong_count(h),
-            |h: &ArcUnion<P, Q>| h.as_second().unwrap().clone_arc(),
-            |h: &ArcUnion<P, Q>, n: &Arc<Q>| (h.as_second().unwrap().get() as *const Q) == (&**n as *const Q)
+            ArcUnion::<F::P, F::Q>::from_second(Arc::new(F::Q::fresh())),
+            |h: &ArcUnion<F::P, F::Q>| ArcUnion::strong_count(h),
+            |h: &ArcUnion<F::P, F::Q>| h.as_second().unwrap().clone_arc(),
+            |h: &ArcUnion<F::P, F::Q>, n: &Arc<F::Q>| (h.as_second().unwrap().get() as *const F::Q) == (&**n as *const F::Q)
         ),
         "thin_with_arc" => scenario!(
-            ThinArc::from_header_and_slice(H::fresh(), &[E::fresh()]),
-            |h: &ThinArc<H, E>| h.with_arc(|a| Arc::count(a)),
-            |h: &ThinArc<H, E>| h.with_arc(|a| a.clone()),
-            |h: &ThinArc<H, E>, n: &Arc<HeaderSlice<triomphe::HeaderWithLength<H>, [E]>>| h.heap_ptr() == n.heap_ptr()
+            ThinArc::from_header_and_slice(F::H::fresh(), &[E::fresh()]),
+            |h: &ThinArc<F::H, E>| h.with_arc(|a| Arc::count(a)),
+            |h: &ThinArc<F::H, E>| h.with_arc(|a| a.clone()),
+            |h: &ThinArc<F::H, E>, n: &Arc<HeaderSlice<triomphe::HeaderWithLength<F::H>, [E]>>| h.heap_ptr() == n.heap_ptr()
         ),
         "offset_with_arc" => scenario!(
-            Arc::into_raw_offset(Arc::new(P::fresh())),
-            |h: &OffsetArc<P>| h.with_arc(|a| Arc::count(a)),
-            |h: &OffsetArc<P>| h.with_arc(|a| a.clone()),
-            |h: &OffsetArc<P>, n: &Arc<P>| (&**h as *const P) == (&**n as *const P)
+            Arc::into_raw_offset(Arc::new(F::P::fresh())),
+            |h: &OffsetArc<F::P>| h.with_arc(|a| Arc::count(a)),
+            |h: &OffsetArc<F::P>| h.with_arc(|a| a.clone()),
+            |h: &OffsetArc<F::P>, n: &Arc<F::P>| (&**h as *const F::P) == (&**n as *const F::P)
         ),
         "borrow_with_arc" => scenario!(
-            Arc::new(P::fresh()),
-            |h: &Arc<P>| h.borrow_arc().with_arc(|a| Arc::count(a)),
-            |h: &Arc<P>| h.borrow_arc().with_arc(|a| a.clone()),
-            |h: &Arc<P>, n: &Arc<P>| Arc::ptr_eq(h, n)
+            Arc::new(F::P::fresh()),
+            |h: &Arc<F::P>| h.borrow_arc().with_arc(|a| Arc::count(a)),
+            |h: &Arc<F::P>| h.borrow_arc().with_arc(|a| a.clone()),
+            |h: &Arc<F::P>, n: &Arc<F::P>| Arc::ptr_eq(h, n)
         ),
         "with_raw_offset_arc" => scenario!(
-            Arc::new(P::fresh()),
-            |h: &Arc<P>| h.with_raw_offset_arc(|o| OffsetArc::strong_count(o)),
-            |h: &Arc<P>| h.with_raw_offset_arc(|o| o.clone()),
-            |h: &Arc<P>, n: &OffsetArc<P>| (&**h as *const P) == (&**n as *const P)
+            Arc::new(F::P::fresh()),
+            |h: &Arc<F::P>| h.with_raw_offset_arc(|o| OffsetArc::strong_count(o)),
+            |h: &Arc<F::P>| h.with_raw_offset_arc(|o| o.clone()),
+            |h: &Arc<F::P>, n: &OffsetArc<F::P>| (&**h as *const F::P) == (&**n as *const F::P)
         ),
         #[cfg(feature = "cfg_a")]
         "arcswap_load_full" => scenario!(
-            arc_swap::ArcSwapAny::new(Arc::new(P::fresh())),
-            |h: &arc_swap::ArcSwapAny<Arc<P>>| Arc::strong_count(&h.load()),
-            |h: &arc_swap::ArcSwapAny<Arc<P>>| h.load_full(),
-            |h: &arc_swap::ArcSwapAny<Arc<P>>, n: &Arc<P>| Arc::ptr_eq(&h.load(), n)
+            arc_swap::ArcSwapAny::new(Arc::new(F::P::fresh())),
+            |h: &arc_swap::ArcSwapAny<Arc<F::P>>| Arc::strong_count(&h.load()),
+            |h: &arc_swap::ArcSwapAny<Arc<F::P>>| h.load_full(),
+            |h: &arc_swap::ArcSwapAny<Arc<F::P>>, n: &Arc<F::P>| Arc::ptr_eq(&h.load(), n)
         ),
         #[cfg(feature = "cfg_a")]
         "arcswap_thin_load_full" => scenario!(
-            arc_swap::ArcSwapAny::new(ThinArc::from_header_and_slice(H::fresh(), &[E::fresh()])),
-            |h: &arc_swap::ArcSwapAny<ThinArc<H, E>>| ThinArc::strong_count(&h.load()),
-            |h: &arc_swap::ArcSwapAny<ThinArc<H, E>>| h.load_full(),
-            |h: &arc_swap::ArcSwapAny<ThinArc<H, E>>, n: &ThinArc<H, E>| h.load().heap_ptr() == n.heap_ptr()
+            arc_swap::ArcSwapAny::new(ThinArc::from_header_and_slice(F::H::fresh(), &[E::fresh()])),
+            |h: &arc_swap::ArcSwapAny<ThinArc<F::H, E>>| ThinArc::strong_count(&h.load()),
+            |h: &arc_swap::ArcSwapAny<ThinArc<F::H, E>>| h.load_full(),
+            |h: &arc_swap::ArcSwapAny<ThinArc<F::H, E>>, n: &ThinArc<F::H, E>| h.load().heap_ptr() == n.heap_ptr()
         ),
         _ => {
             say("HARNESS-ERROR unknown entry point");
